@@ -97,7 +97,7 @@ func relPkg(pk *types.Package) string {
 func c02SystemFirst(p *Program, r *Report) {
 	c01Each(p, r, func(m *mboxRoles) {
 		for _, fn := range m.Loops {
-			g := p.ig(fn)
+			g := p.igx(fn)
 			usrPops := nodesWhere(g, func(in ssa.Instruction) bool { return popOf(in, m.UsrQ) })
 			sysPops := nodesWhere(g, func(in ssa.Instruction) bool { return popOf(in, m.SysQ) })
 			sysNotOk := map[edge]bool{}
